@@ -366,3 +366,42 @@ func (m *Mesh) RoutePath(a, b string) []string {
 	}
 	return path
 }
+
+// ReconnectScriptedStream gives a scripted peer a fresh byte stream on an existing scripted framed link.
+func (m *Mesh) ReconnectScriptedStream(l *Link) (*Conn, error) {
+	n := m.Nodes[l.Ends[0]]
+	e := n.endFor(l, 0, 0, nil)
+	ca, cb := l.ConnectStream()
+	cb.RecordFrames = false
+	if err := n.attachStream(e, ca); err != nil {
+		return nil, err
+	}
+	return cb, nil
+}
+
+// Frame wraps a message in the 2-byte little-endian length prefix of stream backends.
+func Frame(b []byte) []byte {
+	out := make([]byte, 2+len(b))
+	out[0] = byte(len(b))
+	out[1] = byte(len(b) >> 8)
+	copy(out[2:], b)
+	return out
+}
+
+// Drain reads and discards whatever arrives on a scripted stream end until it closes.
+func (c *Conn) Drain() {
+	go func() {
+		buf := make([]byte, 65536)
+		for {
+			if _, err := c.Read(buf); err != nil {
+				return
+			}
+		}
+	}()
+}
+
+// Open reports whether the node side has not closed or severed this end's stream.
+func (c *Conn) Open() bool { return c.isOpen() }
+
+// Open reports whether the session is still usable.
+func (s *Session) Open() bool { return s.isOpen() }
